@@ -11,6 +11,7 @@
 import Scico.Proofs.Block
 import Scico.Proofs.BlockRandom
 import Scico.Proofs.BlockTree
+import Scico.Proofs.BlockSlice
 
 namespace Scico.Props.C13
 open Scico.Block
@@ -137,6 +138,45 @@ theorem C13_getitem (self : List α) (k : Int) :
       simp only [hk, if_true, h2, true_or]
     · have h2 : (self.length : Int) ≤ k := by omega
       simp only [hk, if_false, h2, or_true, if_true]
+
+/-- `x[start:stop:step]` is Python list slicing, returned as a block array: a zero step is a
+    ValueError; otherwise, with `(a, b, st)` the clipped bounds of `slice.indices(n)`, the result has one
+    block per index `j` of `range(a, b, st)`, namely block `j` of `x` (every `j` is a valid index: nothing
+    is read outside the list), and it is well formed -/
+theorem C13_getslice (E : Env α δ) (self : List α) (hwf : WF E self) (start stop step : Option Int) :
+    (step = some 0 → getSlice E self start stop step = .error .value) ∧
+    (∀ a b st, sliceBounds self.length start stop step = some (a, b, st) →
+      ∃ r, getSlice E self start stop step = .ok r ∧ WF E r ∧
+        List.Forall₂ (fun (j : Int) (x : α) => ∃ hj : j.toNat < self.length, x = self[j.toNat])
+          (sliceIdx a b st) r) := by
+  constructor
+  · rintro rfl
+    simp [getSlice, sliceBounds]
+  · intro a b st h
+    have hreads := slice_reads self rfl h
+    have hsub : ∀ x ∈ (sliceIdx a b st).filterMap (fun j => self[j.toNat]?), x ∈ self := by
+      intro x hx
+      obtain ⟨j, _, hj⟩ := List.mem_filterMap.1 hx
+      exact List.mem_of_getElem? hj
+    have hwf' : WF E ((sliceIdx a b st).filterMap (fun j => self[j.toNat]?)) :=
+      ⟨fun x hx => hwf.1 x (hsub x hx), fun x hx y hy => hwf.2 x (hsub x hx) y (hsub y hy)⟩
+    exact ⟨_, by simp [getSlice, h, mkBlock_wf E hwf'], hwf', hreads⟩
+
+/-- the documented forms: `x[:k]` are the first `k` blocks (`0 ≤ k ≤ n`) -/
+theorem C13_getslice_prefix (E : Env α δ) (self : List α) (hwf : WF E self) (k : Nat) (hk : k ≤ self.length) :
+    getSlice E self none (some (k : Int)) none = .ok (self.take k) := by
+  have hb : sliceBounds self.length none (some (k : Int)) none = some (0, (k : Int), 1) := by
+    unfold sliceBounds
+    have h1 : ¬ ((k : Int) < 0) := by omega
+    by_cases h2 : (self.length : Int) ≤ k
+    · have : k = self.length := by omega
+      simp [h1, this]
+    · simp [h1, h2]
+  have hwf' : WF E (self.take k) :=
+    ⟨fun x hx => hwf.1 x (List.mem_of_mem_take hx),
+     fun x hx y hy => hwf.2 x (List.mem_of_mem_take hx) y (List.mem_of_mem_take hy)⟩
+  simp only [getSlice, hb, slice_prefix_reads]
+  exact mkBlock_wf E hwf'
 
 /-! ### `map_func_over_blocks` -/
 
@@ -798,6 +838,11 @@ example : mapTupleOfTuples (β := Unit) exEnv
     = .ok (.blk [List.replicate 6 0, List.replicate 4 0]) := by decide
 example : shapeToSize (.tup [.tup [.int 2, .int 3], .tup [.int 4]]) = 10 := by decide
 example : WF exEnv [[1, 2], [3]] := ⟨fun _ _ => rfl, fun _ _ _ _ => rfl⟩
+-- slices: x[::-1], x[1:], x[-2:5:2] on four blocks
+example : getSlice exEnv [[1], [2], [3], [4]] none none (some (-1)) = .ok [[4], [3], [2], [1]] := by decide
+example : getSlice exEnv [[1], [2], [3], [4]] (some 1) none none = .ok [[2], [3], [4]] := by decide
+example : getSlice exEnv [[1], [2], [3], [4]] (some (-3)) (some 9) (some 2) = .ok [[2], [4]] := by decide
+example : sliceBounds 4 (some (-3)) (some 9) (some 2) = some (1, 4, 2) := by decide
 -- assignment: `x[-1] = v` replaces the last block; index errors as for `x[k]`
 example : setItem exEnv [[1, 2], [3]] (-1) [9] = .ok [[1, 2], [9]] := by decide
 example : setItem exEnv [[1, 2], [3]] 2 [9] = (.error .index : Res (List (List Int))) := by decide
